@@ -35,6 +35,8 @@ def populate(t, rng, nbulk):
     t.link("t/two/mix.a", "t/two/mix.gz")                                  # one inode, two extensions
     t.add_file("t/two/dir-\udcff\udcfe/inner.gz", fc.gz(1700000009))             # a UTF-8 name below a directory whose name is not UTF-8
     t.add_file("t/two/name-\udcfe\udcff.gz", fc.gz(1700000010))                    # a file whose own name is not UTF-8 (the walk reports an error)
+    # a job whose path is longer than a kilobyte (the job messages carry the whole path)
+    t.add_file("t/two/long/" + "/".join("d%d-" % i + "x" * 180 for i in range(6)) + "/deep.gz", fc.gz(1700000011))
     t.symlink("one/g.gz", "t/link-to-file.gz")
     t.symlink("one", "t/link-to-dir")
     for i in range(nbulk):
@@ -74,7 +76,7 @@ def diff_canon(a, b):
     return d
 
 
-def one_run(rng_seed, nbulk, args, rel_args=("t",), timeout=300, strace_out=None):
+def one_run(rng_seed, nbulk, args, rel_args=("t",), timeout=300, strace_out=None, epoch=samples.EPOCH):
     t = fh.Tree()
     try:
         populate(t, random.Random(rng_seed), nbulk)
@@ -85,7 +87,7 @@ def one_run(rng_seed, nbulk, args, rel_args=("t",), timeout=300, strace_out=None
             p = subprocess.run(cmd, env=env, timeout=timeout, stdout=subprocess.PIPE, stderr=subprocess.STDOUT)
             rc, out = p.returncode, p.stdout.decode("utf-8", "replace")
         else:
-            rc, out = fh.run_cli(argv, epoch=samples.EPOCH, timeout=timeout)
+            rc, out = fh.run_cli(argv, epoch=epoch, timeout=timeout)
         return rc, fh.parse_summary(out), canon(fh.snapshot(t.root)), out
     finally:
         t.remove()
@@ -237,6 +239,20 @@ def run(ctx):
         for n in (2, 7):
             case = "-j%d %s" % (n, " ".join(sel))
             rc, summ, state, out = one_run(seed, 60, ["-j%d" % n] + sel)
+            runs += 1
+            d = diff_canon(rstate, state)
+            if d:
+                fail("parallel-state-differs", "%s: the tree differs from the serial result: %s" % (case, "; ".join(d[:4])), case)
+            if rc != rrc or summ is None or rsum is None or any(summ[k] != rsum[k] for k in ("processed", "modified", "replaced", "rewritten", "unsupported", "errors")):
+                fail("parallel-totals-differ", "%s: exit %d summary %s; serial: exit %d summary %s" % (case, rc, summ, rrc, rsum), case)
+            table.append({"case": case, "exit": rc, "summary": summ})
+    # ---- an epoch the tool discards (negative) and no epoch at all: discarded alike by a serial run, the controller and every worker
+    for ep in (-86400, None):
+        rrc, rsum, rstate, _ = one_run(seed, 60, [], epoch=ep)
+        runs += 1
+        for n in (2, 5):
+            case = "-j%d SOURCE_DATE_EPOCH=%s" % (n, ep)
+            rc, summ, state, out = one_run(seed, 60, ["-j%d" % n], epoch=ep)
             runs += 1
             d = diff_canon(rstate, state)
             if d:
